@@ -150,6 +150,11 @@ def build(repo=None):
     want = {("jaxtyping_disable", "JAXTYPING_DISABLE"), ("jaxtyping_remove_typechecker_stack", "JAXTYPING_REMOVE_TYPECHECKER_STACK")}
     obligations.append({"clause": "init:both-switches-initialised-from-their-environment-variables-default-0", "pc": [], "goal": z3.BoolVal(set(calls) == want), "path": [], "meta": {"found": z3.StringVal(str(sorted(calls)))}})
     singleton = any(isinstance(n, ast.Assign) and getattr(n.targets[0], "id", None) == "config" and isinstance(n.value, ast.Call) and getattr(n.value.func, "id", None) == "_JaxtypingConfig" for n in mod.tree.body)
+    ccls = mod.cls("_JaxtypingConfig")
+    own_state = sorted({b.name for b in ccls.body if isinstance(b, (ast.FunctionDef, ast.AsyncFunctionDef))})
+    obligations.append({"clause": "init:the-switches-live-on-one-plain-process-wide-object(no-base-class/metaclass:-not-thread-local,-no-attribute-hooks)", "pc": [], "path": [],
+                        "goal": z3.BoolVal(not ccls.bases and not ccls.keywords and not ({"__getattr__", "__getattribute__", "__setattr__", "__get__", "__set__"} & set(own_state))),
+                        "meta": {"bases": z3.StringVal(",".join(ast.unparse(b) for b in ccls.bases)), "methods": z3.StringVal(",".join(own_state))}})
     obligations.append({"clause": "init:module-level-config-singleton", "pc": [], "goal": z3.BoolVal(singleton), "path": [], "meta": {}})
     out = []
     for ob in obligations:
